@@ -3,7 +3,8 @@
    PARTIAL: interning of vertices and edges, the rotational sense of the stored cycles and which regions survive the distance cut-off are
    proved; "one cell per kept region with the region's corners as cycle" is evaluated by harness/props/c19.py against scipy's diagram. *)
 From Coq Require Import Reals ZArith QArith List Bool Permutation.
-From Forsys Require Import Model.Num Model.Geometry Model.Tessellation Proofs.TessProofs Proofs.GeometryProofs Proofs.OrientationProofs Model.PyList Model.RegionFilter Proofs.RegionFilterProofs.
+From Forsys Require Import Model.Num Model.Geometry Model.Tessellation Proofs.TessProofs Proofs.GeometryProofs Proofs.OrientationProofs Model.PyList Model.RegionFilter Proofs.RegionFilterProofs Model.Round Proofs.RoundProofs.
+From Coq Require Import Qabs.
 Import ListNotations.
 Open Scope Z_scope.
 
@@ -77,8 +78,24 @@ Print Assumptions C19_same_edge_same_id.
 Print Assumptions C19_lattice_cells_keys.
 Print Assumptions C19_area_of_doubled_list.
 Print Assumptions C19_stored_cycles_share_one_sense.
+(* corner points: the lattice point made from a corner of a ridge (rounding of the abscissae, line through the rounded ends evaluated there,
+   rounding of the ordinate - Model/Round.v ridge_vertex, tessellation.py:64-66,124-140) is, in exact arithmetic, the corner rounded to three
+   decimals whatever the other end of the ridge is and whichever end of the ridge the corner is: all ridges and regions that meet in a corner
+   produce the same point (which the interning theorems above turn into one shared vertex), and that point is within 0.0005 of the corner
+   in each coordinate.  The binary64 evaluation is tied bit for bit to the implementation by the correspondence. *)
+Theorem C19_corner_point_is_rounded_corner : forall p q,
+  ridge_vertex_Q true p q = (round_dec 3 (fst p), round_dec 3 (snd p)) /\ ridge_vertex_Q false p q = (round_dec 3 (fst q), round_dec 3 (snd q)).
+Proof. exact ridge_vertex_is_rounded_corner. Qed.
+Theorem C19_corner_point_shared : forall p q q', ridge_vertex_Q true p q = ridge_vertex_Q false q' p.
+Proof. intros p q q'. rewrite (proj1 (ridge_vertex_is_rounded_corner p q)), (proj2 (ridge_vertex_is_rounded_corner q' p)). reflexivity. Qed.
+Theorem C19_corner_point_within_half_a_thousandth : forall x, (Qabs (x - round_dec 3 x) <= 1 # 2000)%Q.
+Proof. exact (round_dec_within_half 3). Qed.
+
 Print Assumptions C19_region_vertex_list_is_doubled.
 Print Assumptions C19_cut_off_is_a_filter.
 Print Assumptions C19_cells_are_the_regions_below_the_cut_off.
 Print Assumptions C19_cut_off_independent_of_corner_order.
 Print Assumptions C19_larger_cut_off_drops_no_more.
+Print Assumptions C19_corner_point_is_rounded_corner.
+Print Assumptions C19_corner_point_shared.
+Print Assumptions C19_corner_point_within_half_a_thousandth.
